@@ -59,7 +59,8 @@ IntBits(val, base, enc0, n) ==
           [] val.name = "MAXS" -> IF base = "int" THEN Yes(<<0>> \o Ones(n - 1))
                                ELSE IF enc = "NONE" THEN Yes(<<0>> \o Ones(n - 1)) ELSE No
           [] val.name = "MINS" -> IF base = "int" /\ enc = "2C" THEN Yes(<<1>> \o Zeros(n - 1)) ELSE No
-          [] val.name = "MINS1" -> IF base # "int" \/ n < 2 THEN No
+          [] val.name = "MINS1" -> IF base # "int" THEN No
+                                ELSE IF n = 1 THEN Yes(<<0>>)           \* -(2^0 - 1) = 0
                                 ELSE (CASE enc = "2C" -> Yes(<<1>> \o Zeros(n - 2) \o <<1>>)
                                         [] enc = "1C" -> Yes(<<1>> \o Zeros(n - 1))
                                         [] OTHER -> Yes(Ones(n)))
